@@ -13,6 +13,7 @@
 From Coq Require Import Permutation.
 From Verif Require Import Base.Prelude Base.StrOrd Base.Graph Model.Pipe Model.CacheSem Model.CacheSemSpec
   Proofs.GraphFacts Proofs.CacheSemBase.
+From Verif Require Proofs.RootArgsFacts.
 
 Section Facts.
   Variable body : str -> alist -> result str.
@@ -1168,21 +1169,39 @@ Section Facts.
     Qed.
 
     (* _get_or_set_cache returns what the user function returns, whatever the policy evicted *)
+    (* the two atomic steps of an invocation, each from ANY cache satisfying the invariant (whatever the other
+       clients of a shared cache did in between): a value that is read is the user function's value ... *)
+    Lemma gos_read_ok f kws c v c1 : In f p -> NoDup (akeys kws) -> cache_inv c ->
+      gos_read P f kws c = (Some v, c1) -> body (fname f) (call_args f kws) = Ok v.
+    Proof.
+      intros Hf Hnd Hc H. unfold gos_read in H. destruct Hc as [Hg He].
+      assert (Hm : cmem P c (map_key f kws) = true) by (apply (L_get_mem P good LAW c _ v Hg); now rewrite H).
+      assert (Hl : lookup P c (map_key f kws) = Some v) by (unfold lookup; now rewrite Hm, H).
+      destruct (He _ _ Hl) as [f' [kws' [Hf' [Ho [Hnd' [Es Hb]]]]]].
+      rewrite (same_outs_eq p f' f WF Hf' Hf Ho) in Hb. now rewrite <- (call_args_sorted f kws kws' Hnd Hnd' Es).
+    Qed.
+
+    Lemma gos_read_inv f kws c : cache_inv c -> cache_inv (snd (gos_read P f kws c)).
+    Proof. apply cache_inv_get. Qed.
+
+    (* ... and writing the user function's value keeps the invariant *)
+    Lemma gos_write_inv f kws c v : In f p -> NoDup (akeys kws) -> cache_inv c ->
+      body (fname f) (call_args f kws) = Ok v -> cache_inv (gos_write P f kws c v).
+    Proof.
+      intros Hf Hnd Hc Hb. apply cache_inv_put; [exact Hc|]. exists f, kws. repeat split; try assumption; reflexivity.
+    Qed.
+
+    (* _get_or_set_cache returns what the user function returns, whatever the policy evicted *)
     Lemma get_or_set_ok f kws c r c' ex : In f p -> NoDup (akeys kws) -> cache_inv c ->
       get_or_set body P f kws c = (r, c', ex) -> r = body (fname f) (call_args f kws) /\ cache_inv c'.
     Proof.
-      intros Hf Hnd Hc H. unfold get_or_set in H.
-      destruct (cmem P c (KMap (outs f) (sort_by_key kws))) eqn:Em.
-      - destruct (cget P c (KMap (outs f) (sort_by_key kws))) as [ov c1] eqn:Eg.
-        destruct (cache_inv_hit c _ Hc Em) as [v [Hv He]]. rewrite Eg in Hv. cbn in Hv. subst ov.
-        injection H as <- <- _. pose proof (cache_inv_get c (KMap (outs f) (sort_by_key kws)) Hc) as Hc1.
-        rewrite Eg in Hc1. split; [|exact Hc1].
-        destruct He as [f' [kws' [Hf' [Ho [Hnd' [Es Hb]]]]]].
-        rewrite (same_outs_eq p f' f WF Hf' Hf Ho) in Hb. now rewrite <- (call_args_sorted f kws kws' Hnd Hnd' Es).
-      - destruct (body (fname f) (call_args f kws)) as [v|e] eqn:Eb.
-        + injection H as <- <- _. split; [reflexivity|]. apply cache_inv_put; [exact Hc|].
-          exists f, kws. repeat split; try assumption; reflexivity.
-        + injection H as <- <- _. split; [reflexivity | exact Hc].
+      intros Hf Hnd Hc H. unfold get_or_set in H. destruct (gos_read P f kws c) as [ov c1] eqn:Eg.
+      pose proof (gos_read_inv f kws c Hc) as Hc1. rewrite Eg in Hc1. cbn in Hc1.
+      destruct ov as [v|].
+      - injection H as <- <- _. split; [|exact Hc1]. symmetry. exact (gos_read_ok f kws c v c1 Hf Hnd Hc Eg).
+      - destruct (body (fname f) (call_args f kws)) as [v|e] eqn:Eb; injection H as <- <- _.
+        + split; [reflexivity|]. now apply gos_write_inv.
+        + split; [reflexivity | exact Hc1].
     Qed.
 
     Theorem map_calls_transparent : forall calls c,
@@ -1321,3 +1340,18 @@ Proof.
   rewrite (root_args_same p o' o0 f0 (producer_unique p o' f0 Hnd Hf Ho') (producer_unique p o0 f0 Hnd Hf Ho0)) in Hra'.
   rewrite Hra in Hra'. injection Hra' as <-. exact Hk.
 Qed.
+
+(* ---------------------------------------------------------------- 11. roots_okb is a consequence of well-formedness *)
+Lemma hist_wfb_goodb p h : hist_wfb p h = true -> hist_goodb p h = true.
+Proof.
+  unfold hist_wfb, hist_goodb. rewrite !forallb_forall. intros H q Hq. specialize (H q Hq).
+  rewrite H. cbn. now apply RootArgsFacts.roots_okb_of_wf.
+Qed.
+
+Theorem cache_transparent_wf body pick {C} (P : policy C) good : lawful P good ->
+  forall p h c0, hist_wfb p h = true -> empty_cache P good c0 ->
+  Forall2 step_transparent (exec_hist body pick P false false p c0 h) (exec_hist body pick P false true p c0 h).
+Proof. intros LAW p h c0 Hw He. apply (cache_transparent body pick P good LAW); [now apply hist_wfb_goodb | exact He]. Qed.
+
+Lemma hist_wf_good p h : (forall q, In q (hist_pipelines p h) -> wf_pipeline q) -> hist_good p h.
+Proof. intros H q Hq. split; [now apply H | apply RootArgsFacts.roots_okb_of_wf; now apply H]. Qed.
